@@ -1016,6 +1016,7 @@ class SpecArray(object):
             dask="parallelized",
             vectorize=True,
             output_dtypes=["float32", "float32", "float32"],
+            dask_gufunc_kwargs={"allow_rechunk": True},
         )
         dsout = xr.Dataset()
         if spectra:
@@ -1062,6 +1063,7 @@ class SpecArray(object):
             dask="parallelized",
             vectorize=True,
             output_dtypes=["float32", "float32", "float32"],
+            dask_gufunc_kwargs={"allow_rechunk": True},
         )
         dsout = xr.Dataset()
         if spectra:
